@@ -87,8 +87,12 @@ def effect (isExt : Bool) : Kind → Eff
   | .setPL => { clears := [.bigHc, .hc], assigns := [.pl, .plBig] }
   | .setNoise => { assigns := [.noiseVar] }
   | .setW => { clears := [.bigWc], assigns := [.w] }
-  | .readH | .readHkl | .readHNoExt => if isExt then {} else { fills := [.hc] }
-  | .readBigH | .readHk | .readBigHNoExt | .readHkNoExt => { fills := [.bigHc] }
+  | .readH | .readHkl => if isExt then {} else { fills := [.hc] }
+  | .readBigH | .readHk => { fills := [.bigHc] }
+  -- the three ExtInt-only views: `AttributeError` on the plain class; `H_no_ext_int` goes through the
+  -- ExtInt `H` getter, which does not cache
+  | .readBigHNoExt | .readHkNoExt => if isExt then { fills := [.bigHc] } else {}
+  | .readHNoExt => {}
   | .corrupt | .corruptCat => { assigns := [.lastNoise], fills := [.bigHc, .bigWc] }
   | .readBigWView => { fills := [.bigWc] }
   | .readLayout | .readPL | .readNoiseVar | .readLastNoise | .stackData | .query => {}
@@ -342,20 +346,22 @@ theorem step_sameOutside (F : Fns α) (st : State α) (op : Op α) :
     have h := (readBigH_same F st).1
     simp only [step]
     split
-    · split <;> rename_i heq <;> rw [heq] at h <;> exact h.mono (by simp [Op.kind, effect, Eff.touched])
+    · rename_i hE
+      split <;> rename_i heq <;> rw [heq] at h <;> exact h.mono (by simp [Op.kind, effect, Eff.touched, hE])
     · exact (SameOutside.refl st).mono (by simp [Op.kind, effect, Eff.touched])
   | readHkNoExt k =>
     have h := (readBigH_same F st).1
     simp only [step]
     split
-    · split <;> rename_i heq <;> rw [heq] at h <;> exact h.mono (by simp [Op.kind, effect, Eff.touched])
+    · rename_i hE
+      split <;> rename_i heq <;> rw [heq] at h <;> exact h.mono (by simp [Op.kind, effect, Eff.touched, hE])
     · exact (SameOutside.refl st).mono (by simp [Op.kind, effect, Eff.touched])
   | readHNoExt =>
     have h := (readH_same F st).1
     simp only [step, Cfg.fixed, if_true, Op.kind, effect]
     cases he : st.isExt
     · exact (SameOutside.refl st).mono (by simp [Op.kind, effect, Eff.touched])
-    · simp only [he] at h
+    · simp only [he, if_true] at h ⊢
       exact h.mono (by simp [Op.kind, effect, Eff.touched])
   | corrupt x xe noise => exact (doCorrupt_same F st x xe noise).1.mono (by simp [Op.kind, effect, Eff.touched])
   | corruptCat X noise => exact (doCorruptCat_same F st X noise).1.mono (by simp [Op.kind, effect, Eff.touched])
@@ -385,11 +391,7 @@ theorem step_fillOnly (F : Fns α) (st : State α) (op : Op α) (f : Fld)
     have h := (readH_same F st).2
     cases he : st.isExt <;> simp [Op.kind, effect, he] at hf
     subst hf; simpa only [step] using h
-  | readHNoExt =>
-    cases he : st.isExt <;> simp [Op.kind, effect, he] at hf
-    subst hf
-    simp only [step, he]
-    exact .inl rfl
+  | readHNoExt => simp [Op.kind, effect] at hf
   | readBigH =>
     have h := (readBigH_same F st).2
     simp [Op.kind, effect] at hf; subst hf
@@ -402,18 +404,16 @@ theorem step_fillOnly (F : Fns α) (st : State α) (op : Op α) (f : Fld)
     split <;> rename_i heq <;> rw [heq] at h <;> exact h
   | readBigHNoExt =>
     have h := (readBigH_same F st).2
-    simp [Op.kind, effect] at hf; subst hf
-    simp only [step]
-    split
-    · split <;> rename_i heq <;> rw [heq] at h <;> exact h
-    · exact .inl rfl
+    cases he : st.isExt <;> simp [Op.kind, effect, he] at hf
+    subst hf
+    simp only [step, he, if_true]
+    split <;> rename_i heq <;> rw [heq] at h <;> exact h
   | readHkNoExt k =>
     have h := (readBigH_same F st).2
-    simp [Op.kind, effect] at hf; subst hf
-    simp only [step]
-    split
-    · split <;> rename_i heq <;> rw [heq] at h <;> exact h
-    · exact .inl rfl
+    cases he : st.isExt <;> simp [Op.kind, effect, he] at hf
+    subst hf
+    simp only [step, he, if_true]
+    split <;> rename_i heq <;> rw [heq] at h <;> exact h
   | corrupt x xe noise =>
     have h := doCorrupt_same F st x xe noise
     simp [Op.kind, effect] at hf
@@ -470,11 +470,11 @@ theorem step_clears (F : Fns α) (st : State α) (op : Op α) (f : Fld)
   | setNoise v => simp [Op.kind, effect] at hf
   | readH => cases he : st.isExt <;> simp [Op.kind, effect, he] at hf
   | readHkl k l => cases he : st.isExt <;> simp [Op.kind, effect, he] at hf
-  | readHNoExt => cases he : st.isExt <;> simp [Op.kind, effect, he] at hf
+  | readHNoExt => simp [Op.kind, effect] at hf
   | readBigH => simp [Op.kind, effect] at hf
   | readHk k => simp [Op.kind, effect] at hf
-  | readBigHNoExt => simp [Op.kind, effect] at hf
-  | readHkNoExt k => simp [Op.kind, effect] at hf
+  | readBigHNoExt => cases he : st.isExt <;> simp [Op.kind, effect, he] at hf
+  | readHkNoExt k => cases he : st.isExt <;> simp [Op.kind, effect, he] at hf
   | corrupt x xe noise => simp [Op.kind, effect] at hf
   | corruptCat X noise => simp [Op.kind, effect] at hf
   | readBigWView => simp [Op.kind, effect] at hf
@@ -486,6 +486,53 @@ theorem step_clears (F : Fns α) (st : State α) (op : Op α) (f : Fld)
   | query => simp [Op.kind, effect] at hf
 
 end Sound
+
+/-! ## the table is tight: every listed write happens on some concrete state -/
+section Tight
+
+/-- integers with `sqrt := id`, `conj := id` -/
+def fProbe : Fns Int := ⟨id, id, fun x => decide (0 ≤ x)⟩
+
+def Fld.same (f : Fld) (a b : State Int) : Bool :=
+  match f with
+  | .raw => a.raw == b.raw | .nr => a.nr == b.nr | .nt => a.nt == b.nt | .k => a.k == b.k
+  | .extK => a.extK == b.extK | .pl => a.pl == b.pl | .plBig => a.plBig == b.plBig
+  | .bigHc => a.bigHc == b.bigHc | .hc => a.hc == b.hc | .w => a.w == b.w | .bigWc => a.bigWc == b.bigWc
+  | .noiseVar => a.noiseVar == b.noiseVar | .lastNoise => a.lastNoise == b.lastNoise
+
+/-- the fields in which two states differ -/
+def changed (a b : State Int) : List Fld := Fld.all.filter fun f => !f.same a b
+
+def onesMat (r c : Nat) : Mat Int := List.replicate r (List.replicate c 1)
+
+/-- a configured two-user object (one interference source on the ExtInt class) on which nothing
+    has been read yet -/
+def probeFresh (isExt : Bool) : State Int :=
+  (run Cfg.fixed fProbe (State.init Int isExt)
+    [.init (onesMat 2 (if isExt then 3 else 2)) [1, 1] [1, 1] 2 (if isExt then [1] else []),
+     .setPL (some [[1, 4], [9, 1]]) [[4], [9]], .setW (some [[[2]], [[3]]]), .setNoise (some 1)]).1
+
+/-- the same object after every view has been read and a transmission made (on the ExtInt class
+    `_H_with_pathloss` is never filled by a getter; the probe puts a value there by hand) -/
+def probeFull (isExt : Bool) : State Int :=
+  let s := (run Cfg.fixed fProbe (probeFresh isExt)
+    [.readH, .readBigH, .readBigWView, .corrupt [[[1]], [[1]]] [[[1]]] (some [[5], [6]])]).1
+  if isExt then { s with hc := some [] } else s
+
+/-- one concrete (state, operation) per operation kind -/
+def probes (isExt : Bool) : List (State Int × Op Int) :=
+  let fresh := probeFresh isExt
+  let full := probeFull isExt
+  [(full, .init (onesMat 3 (if isExt then 5 else 3)) [1, 1, 1] [1, 1, 1] 3 (if isExt then [1, 1] else [])),
+   (full, .randomize (onesMat 3 (if isExt then 5 else 3)) [1, 1, 1] [1, 1, 1] 3 (if isExt then [1, 1] else [])),
+   (full, .setPL (some [[4, 1], [1, 4]]) [[1], [1]]),
+   (full, .setNoise (some 7)), (full, .setW (some [[[5]], [[7]]])),
+   (fresh, .readH), (fresh, .readBigH), (fresh, .readHkl 0 1), (fresh, .readHk 0), (fresh, .readBigHNoExt),
+   (fresh, .readHkNoExt 0), (fresh, .readHNoExt), (fresh, .readBigWView),
+   (fresh, .corrupt [[[1]], [[1]]] [[[1]]] (some [[5], [6]])),
+   (fresh, .corruptCat (onesMat (if isExt then 3 else 2) 1) (some [[5], [6]]))]
+
+end Tight
 
 /-! ## the dependency table of the derived fields, read off the coherence invariant -/
 section Deps
@@ -586,6 +633,14 @@ def Kind.all : List Kind :=
   [.init, .randomize, .setPL, .setNoise, .setW, .readH, .readBigH, .readHkl, .readHk, .readBigHNoExt,
    .readHkNoExt, .readHNoExt, .corrupt, .readLayout, .readPL, .readBigWView, .readNoiseVar, .readLastNoise,
    .corruptCat, .stackData, .query]
+
+/-- every field the table lists for an operation (and that exists as an attribute of the class) is
+    really changed by that operation on one of the probes: the table is not an over-approximation -/
+def tight (isExt : Bool) : Bool :=
+  Kind.all.all fun k =>
+    ((effect isExt k).touched.filter fun f => !(Fld.attrs isExt f).isEmpty).all fun f =>
+      (probes isExt).any fun p =>
+        p.1.isExt == isExt && p.2.kind == k && (changed p.1 (step Cfg.fixed fProbe p.1 p.2).1).contains f
 
 /-- the attributes some operation of the class may fill lazily, according to the model -/
 def lazyAttrs (isExt : Bool) : List String := attrsOf isExt (Kind.all.flatMap fun k => (effect isExt k).fills)
